@@ -234,6 +234,8 @@ struct Engine
     long crash_points = 0;
     bool suspended = false; // boundary callback off (restart clause runs a second sink)
     std::vector<std::array<int, 3>> fault_sites; // (op, call, nth)
+    std::vector<std::array<int, 3>> gz_write_sites; // (op, FS_WRITE, nth): writes that carried bytes of a compressed file
+    bool collecting_sites = false;
     // sibling sink (C06): a second rotating sink with a look-alike name in the same directory
     QSharedPointer<Sink> sib;
     std::string sib_name, sib_stem, sib_suffix;
@@ -591,6 +593,12 @@ struct Engine
         }
         if (is_active_write)
             written_this_op += b.len;
+        // a write to a compressed rotated file: a site for the "disk full while compressing" failure
+        if (collecting_sites && b.call == sim::FS_WRITE && !is_active_write && b.path) {
+            size_t pl = strlen(b.path);
+            if (pl > 3 && !strcmp(b.path + pl - 3, ".gz"))
+                gz_write_sites.push_back({ cur_op, (int)sim::FS_WRITE, b.ordinal });
+        }
         // a rename/link that makes a rotated name appear
         if ((b.call == sim::FS_RENAMEAT2 || b.call == sim::FS_RENAME || b.call == sim::FS_LINK) && b.path2) {
             std::string dst = b.path2;
@@ -1161,10 +1169,11 @@ struct Engine
 
     void run_ops(bool collect_sites)
     {
+        collecting_sites = collect_sites;
         for (size_t i = 0; i < P.ops.size() && res.ok; i++) {
             const FOp &op = P.ops[i];
             cur_op = (int)i;
-            sim::fs_reset_counts();
+            sim::fs_begin_op((int)i);
             sim::FsFault ff;
             if (op.fault_call >= 0) {
                 ff.call = op.fault_call;
@@ -1216,6 +1225,9 @@ struct Engine
                 for (int c : calls)
                     for (int n = 0; n < sim::fs_call_count(c); n++)
                         fault_sites.push_back({ (int)i, c, n });
+                for (auto &g : gz_write_sites)
+                    fault_sites.push_back(g);
+                gz_write_sites.clear();
             }
             if (take_snapshots && crash_eval && res.ok)
                 crash_eval(*this);
@@ -1556,7 +1568,10 @@ const std::vector<int> &errno_menu(int call)
     static const std::vector<int> ln = { EPERM, EACCES, EEXIST, EMLINK, EXDEV };
     static const std::vector<int> ul = { EACCES, EPERM, EBUSY, EIO, EROFS };
     static const std::vector<int> oc = { EACCES, EMFILE, ENOSPC, EROFS, ENFILE };
+    static const std::vector<int> wr = { ENOSPC, EIO, EDQUOT };
     switch (call) {
+    case sim::FS_WRITE:
+        return wr;
     case sim::FS_RENAMEAT2:
         return rn2;
     case sim::FS_RENAME:
@@ -1655,12 +1670,23 @@ Result run_history(const FPlan &plan)
         for (auto &op : plan.ops)
             if (op.k == "write")
                 total += op.n;
-        int used = 0;
+        int used = 0, used_w = 0;
+        static const int werrs[] = { ENOSPC, EIO, EDQUOT };
         for (auto &st : sites) {
-            if (st[1] != sim::FS_OPEN_CREATE || total > 200000 || used >= 3)
+            if (total > 200000)
                 continue;
-            used++;
-            for (int err : { errs[(st[0] + st[2] + used) % 3] }) {
+            if (st[1] == sim::FS_OPEN_CREATE) {
+                if (used >= 3)
+                    continue;
+                used++;
+            } else if (st[1] == sim::FS_WRITE) {
+                // the compressed file was created but (part of) its content cannot be written
+                if (used_w >= 3)
+                    continue;
+                used_w++;
+            } else
+                continue;
+            for (int err : { st[1] == sim::FS_WRITE ? werrs[(st[0] + st[2] + used_w) % 3] : errs[(st[0] + st[2] + used) % 3] }) {
                 FPlan q = plan;
                 q.enumerate = false;
                 q.ops[st[0]].fault_call = st[1];
@@ -1668,6 +1694,11 @@ Result run_history(const FPlan &plan)
                 q.ops[st[0]].fault_errno = err;
                 Result fr = run_single(q, false, true, false, nullptr);
                 fault_runs++;
+                if (fr.probes.count("fault_fired") && fr.probes["fault_fired"] > 0) {
+                    r.probes["errno_injected"] += 1;
+                    if (st[1] == sim::FS_WRITE)
+                        r.probes["compressed_file_write_failed"] += 1;
+                }
                 if (!fr.ok) {
                     fr.at_op = st[0];
                     fr.fault_call = st[1];
@@ -1765,6 +1796,8 @@ Result run_history(const FPlan &plan)
                         break;
                     }
             }
+            if (s[1] == sim::FS_WRITE && fr.probes.count("fault_fired") && fr.probes["fault_fired"] > 0)
+                r.probes["compressed_file_write_failed"] += 1;
             for (auto &kv : fr.probes)
                 if (kv.first == "fault_fired" || kv.first == "rename_fell_back_to_link"
                     || kv.first == "records_refused_device_closed" || kv.first == "errno_injected")
